@@ -367,7 +367,7 @@ def r02_2(chk, repo, F):
         tt = t.replace(" ", "")
         lo = "<0" in tt
         hi = ">=self.nrows" in tt or ">self.nrows-1" in tt or ">=nrows" in tt
-        chk.ob("R02.2b", fi.qualname + "::range-check-bounds", lo and hi, fi.where(n.ast),
+        chk.ob("R02.2b", fi.qualname + "::range-check-bounds", lo and hi and lab == "T", fi.where(n.ast),
                "range check rejects rows < 0 and rows >= nrows (test: %s)" % t)
         # the branch of the range check dominates every final return
         b = [bb for bb, l in view.controlling_branches(n) if norm(bb.ast.test) == t]
@@ -441,7 +441,7 @@ def r02_3(chk, repo, F):
     ok = False
     for n in rules.raise_nodes(cfg):
         for t, lab in rules.controlling_tests(view, n):
-            if "size == 0" in t or "not in" in t or "size < 1" in t:
+            if ("size == 0" in t or "not in" in t or "size < 1" in t) and lab == "T":
                 ok = True
     chk.ob("R02.3b", g1.qualname + "::unknown-name-raises", ok, g1.where(), "an unknown column name raises")
     rets = [x for x in walk_no_nested(g1.node) if isinstance(x, ast.Return) and x.value is not None]
@@ -722,7 +722,7 @@ def check_split_fields(chk, fi, rule):
     chk.ob(rule, fi.qualname + "::default-all-fields", okd, fi.where(), "fields=None selects every field of the dtype in dtype order")
     # missing field raises
     cfg = cfg_of(fi)
-    okr = any("not in" in t for n in rules.raise_nodes(cfg) for t, lab in rules.controlling_tests(cfg.view(), n))
+    okr = any("not in" in t and lab == "T" for n in rules.raise_nodes(cfg) for t, lab in rules.controlling_tests(cfg.view(), n))
     chk.ob(rule, fi.qualname + "::missing-field-raises", okr, fi.where(), "a requested field that does not exist raises")
 
 
